@@ -3,7 +3,8 @@
   statements the unchanged code falsifies kept visible as `def …_full : Prop`, their witnesses, and
   non-vacuity examples; helper lemmas are in `FwdVerif/Lemmas/C12.lean`).
 
-  A. the classification table of `errorResponse`, stated outright for every `ErrKind`
+  A. the classification table of `errorResponse`, stated outright for every `ErrKind`; a time-out is 504
+     whatever `Op` wraps it (`proxyconnect tcp: dial tcp …`), on every path of an exchange
   B. the error response: `X-Forwarder-Error`, self-delimiting; the relayed CONNECT rejection: the
      upstream proxy's reply under the client's protocol version, honouring the client's `close`
   C. one fault at any point of an exchange: a complete error response, or a prefix that no parser
@@ -11,6 +12,10 @@
      repaired: a transport-level CONNECT rejection is relayed well-formed)
   D. several exchanges on one connection: only this exchange's bytes, nothing after a torn response
   E. `handleLoop`: five consecutive non-closeable errors close the connection — and which errors count
+  F. `writeResponse`: the writer selection as a table; a header-only response (HEAD, 1xx, 204, 304) is
+     always written by the header-only writer, its body is never read; hence no upstream reply reaches
+     the `panicBody` sentinel of `handleUpgradeResponse` (and the order of the cases matters); F42: a 101
+     reply that is no protocol switch ends the connection without any response (full statement false)
 
   Not in the model (observed by the correspondence runs only): panic-freedom of net/http and
   crypto/tls on hostile bytes, TCP delivery, the scheduler.
@@ -32,6 +37,8 @@ theorem c12_classification_table (k : ErrKind) :
       match k with
       | .opError op true => (504, "net_" ++ op.text)
       | .opError op false => (502, "net_" ++ op.text)
+      | .opChain outer _ true => (504, "net_" ++ outer.text)
+      | .opChain outer _ false => (502, "net_" ++ outer.text)
       | .dns true => (504, "net_dial")
       | .dns false => (502, "net_dial")
       | .connRefused => (502, "net_dial")
@@ -59,6 +66,7 @@ theorem c12_classification_table (k : ErrKind) :
       | .other => (500, "unexpected_error") := by
   cases k with
   | opError op t => cases op <;> cases t <;> rfl
+  | opChain outer inner t => cases outer <;> cases t <;> rfl
   | dns t => cases t <;> rfl
   | tlsRecordHeader b => cases b <;> rfl
   | martianStatus s =>
@@ -103,6 +111,61 @@ theorem c12_connect_timeouts_504 (op : NetOp) :
     (classify (.opError op true)).1 = 504 ∧ classify (.opError .dial true) = (504, "net_dial") ∧
       (classify (.dns true)).1 = 504 := by
   cases op <;> decide
+
+/-- A time-out is 504 whatever `Op` wraps it: `http.Transport` reports a failed dial to the upstream proxy
+    as `proxyconnect tcp: dial tcp …: i/o timeout` — an `OpError` around an `OpError` —, `errors.As` finds
+    the outer one and its `Timeout()` is the innermost error's.  And a wrapped failure that is no time-out
+    (refused, reset) stays 502.  The label names the outermost `Op`. -/
+theorem c12_timeout_504_whatever_wraps (outer : NetOp) (inner : List NetOp) :
+    classify (.opChain outer inner true) = (504, "net_" ++ outer.text) ∧
+      classify (.opChain outer inner false) = (502, "net_" ++ outer.text) := by
+  cases outer <;> exact ⟨rfl, rfl⟩
+
+example : classify (.opChain .proxyconnect [.dial] true) = (504, "net_proxyconnect") ∧
+    classify (.opChain .proxyconnect [.dial] false) = (502, "net_proxyconnect") ∧
+    classify (.opChain .proxyconnect [.read] false) = (502, "net_proxyconnect") := by decide
+
+/-- … on every path of an exchange: a dial that times out is answered 504 and a refused or reset one 502 —
+    dialling the origin or the upstream proxy (http or https), for a plain request, `GET https://`, a
+    request in an intercepted tunnel and a client CONNECT. -/
+theorem c12_dial_fault_status (ex : Exchange) :
+    (∀ k, faultErr .dialTimeout ex = some k → respStatus k = 504) ∧
+      (∀ k, faultErr .dialRefused ex = some k → respStatus k = 502) ∧
+      (∀ op k, faultErr (.dialReset op) ex = some k → respStatus k = 502) := by
+  refine ⟨?_, ?_, ?_⟩
+  · intro k h
+    simp only [faultErr, Option.some.injEq] at h; subst h
+    unfold dialErr; split <;> rfl
+  · intro k h
+    simp only [faultErr, Option.some.injEq] at h; subst h
+    unfold dialErr; split <;> rfl
+  · intro op k h
+    simp only [faultErr, resetErr] at h
+    split at h
+    · simp at h
+    · split at h <;> (simp only [Option.some.injEq] at h; subst h; cases op <;> rfl)
+
+example : faultErr .dialTimeout { id := 1, kind := .httpsGet, viaUpstream := true } = some (.opChain .proxyconnect [.dial] true) ∧
+    faultErr .dialTimeout { id := 1, kind := .connect, viaUpstream := true } = some (.opError .dial true) ∧
+    faultErr (.dialReset .read) { id := 1, kind := .mitm, viaUpstream := true, upstreamTLS := true } = some (.opChain .proxyconnect [.read] false) ∧
+    faultErr (.dialReset .write) { id := 1, kind := .plain, viaUpstream := true } = some (.opError .write false) ∧
+    faultErr (.dialReset .read) { id := 1, kind := .connect } = none := by decide
+
+/-- `handleNetError` with a branch for `Op == "proxyconnect"` ahead of the `Timeout()` test (the edit of
+    seed c12-3): friendlier message, and every time-out towards the upstream proxy becomes a 502 -/
+def handleNetErrorProxyFirst : Handler := fun _ e =>
+  match e.opError with
+  | some (.proxyconnect, _) => (502, "net_proxyconnect")
+  | some (op, true) => (504, "net_" ++ op.text)
+  | some (op, false) => (502, "net_" ++ op.text)
+  | none => pass
+
+/-- the order of the two tests inside `handleNetError` decides as well -/
+theorem c12_proxyconnect_branch_order_matters :
+    classify (.opChain .proxyconnect [.dial] true) = (504, "net_proxyconnect") ∧
+      classifyWith [handleWindowsNetError, handleNetErrorProxyFirst] false
+        (shapeOf (.opChain .proxyconnect [.dial] true)) = (502, "net_proxyconnect") := by
+  decide
 
 /-- The order of the handler list decides: a time-out is seen by `handleNetError` before anything that
     would make it a 502 or the wrapped status of an `ErrorStatus`; an alert that `crypto/tls` wraps
@@ -170,6 +233,7 @@ theorem c12_upstream_faults_5xx (k : ErrKind) (h : upstreamKind k = true) :
     respStatus k = 500 ∨ respStatus k = 502 ∨ respStatus k = 504 := by
   cases k with
   | opError op t => cases op <;> cases t <;> decide
+  | opChain outer inner t => cases outer <;> cases t <;> simp [respStatus, errorWritten, Written.status, c12_classification_table]
   | dns t => cases t <;> decide
   | tlsRecordHeader b => cases b <;> decide
   | martianStatus s => simp [upstreamKind] at h
@@ -189,6 +253,7 @@ theorem c12_status_in_range (k : ErrKind)
     300 ≤ respStatus k ∧ respStatus k < 600 := by
   cases k with
   | opError op t => cases op <;> cases t <;> decide
+  | opChain outer inner t => cases outer <;> cases t <;> simp [respStatus, errorWritten, Written.status, c12_classification_table]
   | dns t => cases t <;> decide
   | tlsRecordHeader b => cases b <;> decide
   | martianStatus s =>
@@ -722,6 +787,162 @@ theorem c12_five_failed_exchanges_close_full_false : ¬ c12_five_failed_exchange
   intro h
   have := h ((List.range 6).map fun i => (.dialRefused, { id := i })) (by decide)
   exact absurd this (by decide)
+
+/-! ## F. `writeResponse`: the writer selection, and the body of a header-only response -/
+
+/-- The table of the writer selection, for every (method, status, header, facts): which writer, by
+    the three predicates in code order. -/
+theorem c12_writer_selection_table (m : Bytes) (st : Nat) (h : HMap) (r : ResFacts) :
+    selectWriter m st h r =
+      if m == methodConnect && st / 100 == 2 then Writer.connectOK
+      else if isHeaderOnlySpec m st then .headerOnly
+      else if isTextEventStream h r then .sseFlush
+      else if r.protoMajor == 1 && r.protoMinor == 1 && r.contentLength == -1 then .chunkFlush
+      else .plain := by
+  unfold selectWriter shouldChunk
+  by_cases h1 : (m == methodConnect && st / 100 == 2) = true
+  · simp [h1]
+  · by_cases h2 : isHeaderOnlySpec m st = true
+    · simp [h1, h2]
+    · simp [h1, h2]
+
+example : selectWriter (bs "GET") 200 [(bs "Content-Type", [bs "text/event-stream"])] {} = .sseFlush ∧
+    selectWriter (bs "GET") 200 [(bs "Content-Type", [bs "Text/Event-Stream ; charset=utf-8"])] { contentLength := -1 } = .sseFlush ∧
+    selectWriter (bs "GET") 200 [(bs "Content-Type", [bs "text/plain"])] { contentLength := -1 } = .chunkFlush ∧
+    selectWriter (bs "GET") 200 [] { contentLength := 5 } = .plain ∧
+    selectWriter (bs "CONNECT") 200 [(bs "Content-Type", [bs "text/event-stream"])] {} = .connectOK ∧
+    selectWriter (bs "CONNECT") 403 [] { contentLength := 2 } = .plain := by
+  with_unfolding_all decide
+
+/-- A header-only response — any response to HEAD, any 1xx, 204, 304 — is ALWAYS written by the
+    header-only writer (or, for the 204 answer to a CONNECT, by the literal), whatever its
+    `Content-Type`, its framing fields, its protocol version. -/
+theorem c12_header_only_written_by_header_only_writer (m : Bytes) (st : Nat) (h : HMap) (r : ResFacts)
+    (ho : isHeaderOnlySpec m st = true) :
+    selectWriter m st h r = (if m == methodConnect && st / 100 == 2 then Writer.connectOK else .headerOnly) := by
+  unfold selectWriter
+  by_cases h1 : (m == methodConnect && st / 100 == 2) = true
+  · simp [h1]
+  · simp [h1, ho]
+
+example : isHeaderOnlySpec (bs "GET") 101 = true ∧ isHeaderOnlySpec (bs "HEAD") 200 = true ∧
+    isHeaderOnlySpec (bs "POST") 304 = true ∧ isHeaderOnlySpec (bs "GET") 199 = true ∧
+    isHeaderOnlySpec (bs "GET") 205 = false := by
+  with_unfolding_all decide
+
+/-- … hence the body of a header-only response is never read: no field an upstream sends with it
+    (an event-stream `Content-Type`, an unknown length, …) selects a writer that touches the body. -/
+theorem c12_header_only_body_never_read (m : Bytes) (st : Nat) (h : HMap) (r : ResFacts)
+    (ho : isHeaderOnlySpec m st = true) :
+    (selectWriter m st h r).readsBody = false := by
+  rw [c12_header_only_written_by_header_only_writer m st h r ho]
+  split <;> rfl
+
+example : (selectWriter (bs "GET") 101
+    [(bs "Connection", [bs "Upgrade"]), (bs "Upgrade", [bs "websocket"]), (bs "Content-Type", [bs "text/event-stream"])]
+    { contentLength := -1 }) = .headerOnly := by
+  with_unfolding_all decide
+
+/-- exactly the other responses have their body read -/
+theorem c12_body_read_iff (m : Bytes) (st : Nat) (h : HMap) (r : ResFacts) :
+    (selectWriter m st h r).readsBody = true ↔
+      isHeaderOnlySpec m st = false ∧ (m == methodConnect && st / 100 == 2) = false := by
+  unfold selectWriter
+  by_cases h1 : (m == methodConnect && st / 100 == 2) = true
+  · simp [h1, Writer.readsBody]
+  · by_cases h2 : isHeaderOnlySpec m st = true
+    · simp [h1, h2, Writer.readsBody]
+    · simp only [h1, h2, Bool.false_eq_true, ↓reduceIte]
+      constructor
+      · intro _; simp_all
+      · intro _; split <;> (try split) <;> rfl
+
+/-- the `panicBody` sentinel is installed for 101 replies only — which are header-only -/
+theorem c12_sentinel_only_under_header_only (m : Bytes) (st : Nat) (h : HMap)
+    (hs : bodyAtWrite m st h = some .panicSentinel) :
+    st = 101 ∧ isHeaderOnlySpec m st = true := by
+  unfold bodyAtWrite at hs
+  by_cases h1 : (st == 101) = true
+  · have : st = 101 := by simpa using h1
+    subst this
+    refine ⟨rfl, ?_⟩
+    simp [isHeaderOnlySpec, Resp.headerOnly, Resp.bodyAllowed]
+  · simp only [h1, Bool.false_eq_true, ↓reduceIte] at hs
+    split at hs <;> simp at hs
+
+/-- No reply of an upstream makes `handle` read the sentinel: whatever status, header and framing the
+    transport accepted, for whatever request method, the outcome is a written response or a close —
+    never `panic("unexpected read")`. -/
+theorem c12_upstream_reply_never_panics (m : Bytes) (st : Nat) (h : HMap) (r : ResFacts) :
+    relay m st h r ≠ .panicked := by
+  unfold relay relayWith
+  cases hb : bodyAtWrite m st h with
+  | none => simp
+  | some b =>
+    by_cases hp : b = .panicSentinel
+    · subst hp
+      have := (c12_sentinel_only_under_header_only m st h hb).2
+      simp [c12_header_only_body_never_read m st h r this]
+    · simp [hp]
+
+theorem c12_connect_reply_never_panics (st : Nat) (h : HMap) (r : ResFacts) :
+    relayConnect st h r ≠ .panicked := by
+  simp [relayConnect, relayConnectWith]
+
+example : relay (bs "GET") 101
+    [(bs "Connection", [bs "Upgrade"]), (bs "Upgrade", [bs "websocket"]), (bs "Content-Type", [bs "text/event-stream"])] {}
+      = .wrote .headerOnly true ∧
+    relay (bs "GET") 101 [(bs "Content-Type", [bs "text/event-stream"])] {} = .closedWithoutResponse ∧
+    relay (bs "HEAD") 200 [(bs "Content-Type", [bs "text/event-stream"])] { contentLength := 7 } = .wrote .headerOnly false ∧
+    relay (bs "GET") 200 [(bs "Content-Type", [bs "text/event-stream"])] { contentLength := -1 } = .wrote .sseFlush false := by
+  with_unfolding_all decide
+
+/-- full clause "a reply the transport accepted is answered: the client gets the upstream's response (or
+    an error response), never a bare close" — FALSE of the unchanged code (F42): a `101 Switching
+    Protocols` that is no protocol switch comes with a body that is not writable, and
+    `handleUpgradeResponse` ends the connection without writing anything -/
+def c12_accepted_reply_answered_full : Prop :=
+  ∀ (m : Bytes) (st : Nat) (h : HMap) (r : ResFacts), relay m st h r ≠ .closedWithoutResponse
+
+/-- outside that class every accepted reply is written (header-only, or with its body) -/
+theorem c12_accepted_reply_answered_partial (m : Bytes) (st : Nat) (h : HMap) (r : ResFacts)
+    (hs : st = 101 → protocolSwitch st h = true) :
+    ∃ w, relay m st h r = .wrote w (st == 101) ∧ w = selectWriter m st h r := by
+  unfold relay relayWith bodyAtWrite
+  by_cases h1 : (st == 101) = true
+  · have h101 : st = 101 := by simpa using h1
+    have hsw := hs h101
+    have hho : isHeaderOnlySpec m st = true := by
+      subst h101; simp [isHeaderOnlySpec, Resp.headerOnly, Resp.bodyAllowed]
+    have hrb := c12_header_only_body_never_read m st h r hho
+    simp [h1, hsw, hrb]
+  · simp only [h1, Bool.false_eq_true, if_false]
+    by_cases hho : isHeaderOnlySpec m st = true
+    · simp [hho]
+    · simp [hho]
+
+example : protocolSwitch 101 [(bs "Connection", [bs "keep-alive, Upgrade"]), (bs "Upgrade", [bs "websocket"])] = true := by
+  with_unfolding_all decide
+
+theorem c12_accepted_reply_answered_witness :
+    relay (bs "GET") 101 [(bs "Content-Type", [bs "text/event-stream"])] {} = .closedWithoutResponse ∧
+      relay (bs "GET") 101 [(bs "Connection", [bs "Upgrade"])] {} = .closedWithoutResponse ∧
+      relay (bs "GET") 101 [(bs "Upgrade", [bs "websocket"])] {} = .closedWithoutResponse := by
+  with_unfolding_all decide
+
+theorem c12_accepted_reply_answered_full_false : ¬ c12_accepted_reply_answered_full := by
+  intro hfull
+  exact hfull (bs "GET") 101 [(bs "Content-Type", [bs "text/event-stream"])] {} c12_accepted_reply_answered_witness.1
+
+/-- The order of the cases is what the theorem rests on: with the event-stream case ahead of the
+    header-only case (every case unchanged in itself) a `101 Switching Protocols` reply labelled
+    `text/event-stream` reads the sentinel — the process dies (seed c12-1). -/
+theorem c12_writer_order_matters :
+    relayWith selectWriterSSEFirst (bs "GET") 101
+      [(bs "Connection", [bs "Upgrade"]), (bs "Upgrade", [bs "websocket"]), (bs "Content-Type", [bs "text/event-stream"])] {}
+        = .panicked := by
+  with_unfolding_all decide
+
 
 end C12
 end FwdVerif
